@@ -1,7 +1,7 @@
 (* C07/Properties.v — property theorems only.  Model: C07/Model.v (the code after fix commits
    e89b171, 07b228c; with the known finding F-C07a, whose fix 311264d was reverted by 0819a3f). *)
 From Coq Require Import String Lia.
-From RM Require Import C06.Model C06.Proofs C06.Proofs5 C06.Driver C07.Model C07.Proofs C07.Proofs2 C07.Proofs3 C07.Proofs4 C07.Text C07.Proofs5 C07.Walker C07.Proofs6 C07.Proofs7 C07.Proofs11 C07.Proofs13 C07.Proofs8 C07.Proofs9 C07.Proofs10 C07.Proofs12 Gen.C07WinEval C07.Source C07.Proofs14 C07.Proofs15 C07.Proofs16 Gen.C07WinLine C07.Proofs17 C07.Proofs18 C07.WalkerFd C07.Proofs19.
+From RM Require Import C06.Model C06.Proofs C06.Proofs5 C06.Driver C07.Model C07.Proofs C07.Proofs2 C07.Proofs3 C07.Proofs4 C07.Text C07.Proofs5 C07.Walker C07.Proofs6 C07.Proofs7 C07.Proofs11 C07.Proofs13 C07.Proofs8 C07.Proofs9 C07.Proofs10 C07.Proofs12 Gen.C07WinEval C07.Source C07.Proofs14 C07.Proofs15 C07.Proofs16 Gen.C07WinLine C07.Proofs17 C07.Proofs18 C07.WalkerFd C07.Proofs19 C07.Proofs20.
 From RM Require C09.Grammar.
 From RM Require C08.Model C08.Proofs.
 Open Scope Z_scope.
@@ -762,3 +762,22 @@ Proof.
   cbn [win_layout_bp]. repeat split; try reflexivity; try (intro Hc; discriminate Hc); try (vm_compute; intro Hc; discriminate Hc);
     try (vm_compute; reflexivity); try (intros _ Hc; discriminate Hc).
 Qed.
+
+(* One step of win_walk (and of fpo_walk, which it contains) IS SymbolFile::walk_frame on the abstract walker: for a file
+   without STACK CFI records, whichever record the tables return at the lookup address `a` — the frame-data one, or the
+   FPO one when no frame-data record covers `a` — the step's caller registers are those walk_frame leaves in the walker
+   (eip, esp, ebp all set), and there is no step iff walk_frame fails.  So c07_win_recovers_chain(_bp) are statements about
+   iterating walk_frame, the function c07_source_is_model ties to the Rust source.  (Hypotheses met: c07_nonvacuous_preference.) *)
+Theorem c07_walk_step_is_walk_frame :
+  forall f fd fp mem below callee r a i,
+    win_table (sf_framedata f) = Ret fd -> win_table (sf_fpo f) = Ret fp -> sf_cfi f = None ->
+    ((C08.Model.rm_get fd a = Some i /\ exists e, w_thing i = ProgramString e) \/
+     (C08.Model.rm_get fd a = None /\ C08.Model.rm_get fp a = Some i /\ exists b, w_thing i = AllocatesBasePointer b)) ->
+    let regs := fun n => assoc n [(N_eip, x_eip r); (N_esp, x_esp r); (N_ebp, x_ebp r)] in
+    win_xstep mem below callee r i =
+    match walk_frame (mock_ops 4) Debug (frames_env regs mem a below callee) f m_init with
+    | Ret (Some s) => xregs_of s
+    | _ => None
+    end.
+Proof. exact xstep_is_walk_frame. Qed.
+Print Assumptions c07_walk_step_is_walk_frame.
